@@ -1856,14 +1856,68 @@ def gen_c13(seed, tier):
     return sc
 
 
+CPU_MODELS = [
+    # (description, maxleaf, sse2, osxsave, avx2, top, noise)
+    ("AVX2 machine, other feature bits clear", 13, 1, 1, 1, 0, 0),
+    ("AVX2 machine, every other feature bit set", 22, 1, 1, 1, 1, 1),
+    ("leaf 7 is the highest leaf", 7, 1, 1, 1, 0, 1),
+    ("SSE2 machine: every leaf-7 bit but AVX2 set", 13, 1, 1, 0, 0, 1),
+    ("SSE2 machine, all feature bits clear", 13, 1, 0, 0, 0, 0),
+    ("no SSE2: every leaf-1 EDX bit but SSE2 set", 13, 0, 1, 0, 0, 1),
+    ("highest leaf 6, out-of-range leaves answer zeros", 6, 1, 1, 0, 0, 0),
+    ("highest leaf 5: leaf 7 answers with the highest leaf's data, all ones", 5, 1, 1, 0, 1, 0),
+    ("highest leaf 2: the same", 2, 1, 1, 1, 1, 1),
+    ("highest leaf 1, no SSE2", 1, 0, 0, 0, 1, 0),
+    ("AVX2 flag set but the OS has not enabled the YMM state (OSXSAVE clear)", 13, 1, 0, 1, 0, 0),
+    ("the same with every other bit set", 20, 1, 0, 1, 1, 1),
+]
+
+
+def gen_c13_cpus(seed, tier):
+    """the real probes on every CPU model above (CPUID answered by the driver), every kind and cap"""
+    sc = Sc(seed + 130)
+    for mi, (desc, maxleaf, sse2, osx, avx2, top, noise) in enumerate(CPU_MODELS):
+        sc.reset("c13-cpu-%d" % mi)
+        sc.raw("cpu maxleaf=%d sse2=%d osxsave=%d avx2=%d top=%d noise=%d" % (maxleaf, sse2, osx, avx2, top, noise))
+        for kind in ("s128", "s64", "mantis"):
+            bs = BS[kind]
+            for cap in (2, 1, 0):
+                sc.ctr_init(kind, 0, cap=cap, garbage=hex(sc.rng.getrandbits(64)))
+                sc.par_init(kind, 0, cap=cap, garbage=hex(sc.rng.getrandbits(64)))
+                if cap == 2:
+                    # the object works on the back end it was given
+                    sc.ctr_set_key(kind, 0, valid_key(sc, kind), rounds=6)
+                    sc.ctr_encrypt(kind, 0, sc.rb(9 * bs + 1))
+                    sc.par_set_key(kind, 0, valid_key(sc, kind), rounds=6, mode=1)
+                    sc.par_crypt(kind, 0, sc.rb(9 * bs), enc=True, tweak=sc.rb(72) if kind == "mantis" else None)
+                sc.ctr_cleanup(kind, 0)
+                sc.par_cleanup(kind, 0)
+        sc.raw("cpu off=1")
+        sc.raw("env")
+    return sc
+
+
+def cpuid_faulting_available(b):
+    lines = run_drv(b, "env\ncpu maxleaf=13\ncpu off=1\n")
+    return any('"e":"cpu"' in ln and '"on":1' in ln and '"ok":1' in ln for ln in lines)
+
+
 def check_C13(work, tier, seed):
     out = Outcome()
     r, ok = run_mc(work, out, "MC_Probe", "MC_Probe", must_cover=("DoInit",))
     if not ok:
         mc_violation("C13", out, "MC_Probe", r)
     run_mc(work, out, "MC_Probe", "MCneg_Probe_shipped", expect_fail=True)
+    run_mc(work, out, "MC_Probe", "MCneg_Probe_nomaxleaf", expect_fail=True)
+    run_mc(work, out, "MC_Probe", "MCneg_Probe_noos", expect_fail=True)
     b = build(work)
     lines = conform(work, b, "C13", seed, gen_c13(seed, tier).text(), out)
+    # the real probe code on every x86 CPU model of CPU_MODELS (CPUID answered by the driver)
+    if cpuid_faulting_available(b):
+        lines += conform(work, b, "C13", seed, gen_c13_cpus(seed, tier).text(), out, tag="-cpus")
+        out.notes.append("CPU models emulated by CPUID faulting: " + "; ".join(m[0] for m in CPU_MODELS))
+    else:
+        out.notes.append("CPU-model scenarios SKIPPED: CPUID faulting (arch_prctl ARCH_SET_CPUID) is not available on this host")
     # fresh processes in which the VERY FIRST library call is each init function in turn
     # (no env/layout call before it), followed by the other inits: a probe result that is
     # cached, or that depends on which probe ran first, shows as an unstable selection
